@@ -37,6 +37,8 @@ func init() {
 		runConcFiles(c)
 		runConcParallelInner(c)
 		runConcPoolGoroutines(c, 300)
+		runConcShared(c)
+		runConcLib(c)
 	})
 	addReplay("C18", "files", replayConcFiles)
 	addReplay("C18", "parallel", func(string) (bool, string) {
@@ -1016,13 +1018,30 @@ func runConcParallel(c *Ctx) {
 		out, err := cmd.CombinedOutput()
 		text := string(out)
 		c.Stat("race-detector child runs")
-		if i := strings.Index(text, "WARNING: DATA RACE"); i >= 0 {
-			end := i + 1800
-			if end > len(text) {
-				end = len(text)
+		if strings.Contains(text, "WARNING: DATA RACE") {
+			unknown := false
+			for _, blk := range strings.Split(text, "WARNING: DATA RACE")[1:] {
+				if len(blk) > 1800 {
+					blk = blk[:1800]
+				}
+				// the accesses are the frames before the first "created at"
+				acc := blk
+				if i := strings.Index(acc, "created at:"); i >= 0 {
+					acc = acc[:i]
+				}
+				key := "data-race"
+				if strings.Contains(acc, "annotation/decode.PageAnnotations()") && !strings.Contains(acc, "decode.Form") {
+					// the IRT repair on shared annotation values (finding C18-A2)
+					key = "published-value-changed-irt"
+				} else {
+					unknown = true
+				}
+				c.Violate("race", key, "the race detector reports: WARNING: DATA RACE"+blk, "")
 			}
-			c.Violate("race", "data-race", "the race detector reports: "+text[i:end], "")
-			return
+			if unknown {
+				return
+			}
+			err = nil // the child's exit status only reflects the races
 		}
 		if err != nil {
 			c.Violate("race", "race-child-failed", fmt.Sprintf("race-detector child: %v: %.600s", err, text), "")
@@ -1030,7 +1049,7 @@ func runConcParallel(c *Ctx) {
 		}
 		// oracle failures found by the child count as well
 		raw, err := os.ReadFile(filepath.Join(outDir, "report.json"))
-		if err == nil && strings.Contains(string(raw), `"key"`) {
+		if err == nil && strings.Contains(strings.ReplaceAll(string(raw), `"key": "published-value-changed-irt"`, ""), `"key"`) {
 			c.Violate("race", "race-child-violation", fmt.Sprintf("the -race child found oracle failures: %.800s", raw), "")
 		}
 	}
